@@ -10,6 +10,7 @@ reference state. The pool runs over instances (one graph per shard, BFS inside t
 import contextlib
 import copy
 import io
+import itertools
 import math
 import sys
 
@@ -274,8 +275,13 @@ def alphabet(n, K, seed, tau_from=0):
     alt = [g3 if i % 2 == 0 else -g3 for i in range(n)]
     hole = list(dense)
     hole[tau_from + m // 2] = 0.0   # full support minus one term: the cached positions of the later terms shift by one
+    # sign patterns decorrelated from `dense`/`alt` (every entry changes sign between dense and neg-dense; rev-dense permutes the
+    # magnitudes): coefficient sums and differences of the encoded generators change sign / cancel differently
+    neg = [-x for x in dense]
+    rev = list(dense[:tau_from]) + list(dense[tau_from:][::-1])
     full = [("zero", [0.0] * n), ("alt", alt), ("hot-mid", hot(m // 2, -g2)), ("rep-2pi", rep), ("all-2pi", all2pi), ("dense", dense),
-            ("dense-one-zero", hole), ("equal", [g1] * n), ("hot-first", hot(0, g1)), ("hot-last", hot(m - 1, g3))]
+            ("neg-dense", neg), ("dense-one-zero", hole), ("rev-dense", rev), ("equal", [g1] * n), ("hot-first", hot(0, g1)),
+            ("hot-last", hot(m - 1, g3))]
     out, seen = [], set()
     for name, v in full[:K]:
         t = tuple(v)
@@ -620,8 +626,38 @@ def _short(v):
 MAX_STATES = 6000
 
 
+def lattice_vectors(n, tier, seed, tau_from=0):
+    """Vectors whose entries satisfy exact small-integer linear relations (x_j = +-x_i, x_j = +-2 x_i): sums and differences of
+    amplitudes then cancel exactly inside the encoded generator although no final coefficient need vanish. n <= 3: all vectors over
+    {+-a, +-2a}; larger n: the generic dense vector with one pair of positions set to a related pair of values."""
+    a = 0.37 + runner.seed_delta(seed)
+    m = n - tau_from
+    if m <= 0:
+        tau_from, m = 0, n
+    if n == 0:
+        return []
+    base = dict(alphabet(n, 12, seed, tau_from))["dense"]
+    out = []
+    if m <= 3:
+        for vals in itertools.product((a, -a, 2 * a, -2 * a), repeat=m):
+            out.append((":".join(f"{x / a:+.0f}" for x in vals), list(base[:tau_from]) + list(vals)))
+        return out
+    rel = [(a, 2 * a), (a, -2 * a), (2 * a, a), (-2 * a, a), (a, a), (a, -a)]
+    pairs = [(i, j) for i in range(m) for j in range(i + 1, m)]
+    if tier == "quick":
+        pairs = [(i, j) for i, j in pairs if j - i <= 2][:10]
+    else:
+        pairs = pairs[:100]
+    for i, j in pairs:
+        for x, y in rel:
+            v = list(base)
+            v[tau_from + i], v[tau_from + j] = x, y
+            out.append((f"{i}={x / a:+.0f},{j}={y / a:+.0f}", v))
+    return out
+
+
 def tier_params(tier):
-    return (7, 2) if tier == "quick" else (10, 3)
+    return (9, 2) if tier == "quick" else (12, 3)
 
 
 def shards(tier, seed):
@@ -631,7 +667,7 @@ def shards(tier, seed):
     for i in sorted(insts, key=lambda d: -d.get("cost", 1)):
         inst = {k: v for k, v in i.items() if k != "cost"}
         dep = 3 if inst["cls"] == "ADAPT" else depth
-        out.append({"kind": label(inst), "inst": inst, "K": K, "depth": dep, "seed": seed})
+        out.append({"kind": label(inst), "inst": inst, "K": K, "depth": dep, "seed": seed, "tier": tier})
     return out
 
 
@@ -676,6 +712,17 @@ def run_shard(shard):
         start["vec"] = dict(g.vectors(n0))["dense" if n0 else "empty"]
         start["name"] = "dense"
         acc = stategraph.explore(g, [start], shard["depth"], jobs=1, max_states=MAX_STATES, check_deepcopy=True)
+    # ---- exact linear relations between parameters: one update from the generic start state per lattice vector ----------------
+    if inst["cls"] != "ADAPT":
+        with quiet():
+            for nm, v in lattice_vectors(n0, shard.get("tier", "quick"), shard["seed"], getattr(g, "tau_from", 0) or 0):
+                st = make_start(g, start)
+                op = {"op": "update", "name": "lattice:" + nm, "vec": [float(x) for x in v]}
+                hist = [start, op]
+                acc.transitions += 1
+                st = g.sg_step(st, op, acc, hist)
+                g.sg_check(st, hist, acc)
+                acc.count("lattice_updates")
     cls = inst["cls"]
     acc.count(f"graphs.{cls}")
     acc.count(f"states.{cls}", acc.states)
@@ -732,7 +779,7 @@ def bounds(tier, seed):
 def selftest():
     SV.selftest()
     for n in (1, 2, 3, 9, 34):
-        for K in (7, 10):
+        for K in (9, 12):
             vs = alphabet(n, K, 0, tau_from=(16 if n == 34 else 0))
             assert all(len(v) == n for _, v in vs) and len({tuple(v) for _, v in vs}) == len(vs)
             d = dict(vs)
